@@ -458,6 +458,80 @@ func runC02Rest(c *Ctx, q *qbAnchors, funcs []*ssa.Function, lc *LockClass) {
 	}
 }
 
+// runC02Resync: R8. The persistent queue cannot subtract the size of an item it failed to read back (the size
+// is unknown), so its accounting is repaired when the queue runs empty: `readIndex == writeIndex` ⇒ queueSize = 0
+// (+ hasMoreSpace.Signal, which R2 pairs with the store). Every dequeue attempt – a call of the method that
+// advances readIndex – must reach that test before the next attempt or any return, whatever the attempt's outcome.
+func runC02Resync(c *Ctx, q *qbAnchors, funcs []*ssa.Function) {
+	p := c.P
+	c.Rule("R8", "ORD", "persistent queue: after every dequeue attempt (call of the method that advances readIndex) the emptiness re-sync `readIndex == writeIndex ⇒ queueSize = 0` is evaluated before the next attempt and before any return, independently of whether the attempt produced an item", 1)
+	T := q.pq
+	adv := map[*ssa.Function]bool{}
+	for _, fn := range funcs {
+		if fn.Parent() != nil || recvNamedOfFn(fn) != T.Origin() {
+			continue
+		}
+		for _, s := range fieldStores(fn, T, "readIndex") {
+			if isIncrementOf(s, T, "readIndex", 1) {
+				adv[fn] = true
+			}
+		}
+	}
+	if len(adv) == 0 {
+		c.Anchor("persistent queue method that advances readIndex")
+		return
+	}
+	for _, fn := range funcs {
+		if fn.Parent() != nil || recvNamedOfFn(fn) != T.Origin() || adv[fn] {
+			continue
+		}
+		attempts := calls(fn, func(ci ssa.CallInstruction) bool {
+			cf := staticCalleeFn(ci)
+			return cf != nil && (adv[cf] || adv[cf.Origin()])
+		})
+		if len(attempts) == 0 {
+			continue
+		}
+		// the re-sync tests: If on readIndex == writeIndex whose true side stores 0 to the size
+		via := map[ssa.Instruction]bool{}
+		allInstrs(fn, func(in ssa.Instruction) {
+			iff, ok := in.(*ssa.If)
+			if !ok {
+				return
+			}
+			bo, ok := iff.Cond.(*ssa.BinOp)
+			if !ok || (bo.Op != token.EQL && bo.Op != token.NEQ) {
+				return
+			}
+			ld := func(v ssa.Value, f string) bool {
+				u, ok := v.(*ssa.UnOp)
+				return ok && u.Op == token.MUL && isFieldAccess(u.X, T, f)
+			}
+			if !((ld(bo.X, "readIndex") && ld(bo.Y, "writeIndex")) || (ld(bo.X, "writeIndex") && ld(bo.Y, "readIndex"))) {
+				return
+			}
+			side := iff.Block().Succs[0]
+			if bo.Op == token.NEQ {
+				side = iff.Block().Succs[1]
+			}
+			for _, s := range fieldStores(fn, T, "queueSize") {
+				if k, ok := constInt(s.Val); ok && k == 0 && (s.Block() == side || side.Dominates(s.Block())) && len(side.Preds) == 1 {
+					via[iff] = true
+				}
+			}
+		})
+		for i, at := range attempts {
+			to := []ssa.Instruction{at.(ssa.Instruction)}
+			for _, r := range returnsOf(fn) {
+				to = append(to, r)
+			}
+			ok, esc := mustPassThrough(fn, at.(ssa.Instruction), via, to)
+			c.Check(ok, fmt.Sprintf("dequeue attempt #%d in %s is followed by the emptiness re-sync", i+1, fnName(fn)), p.Pos(at.Pos()), "every path to the next attempt / a return evaluates readIndex == writeIndex ⇒ queueSize = 0",
+				fmt.Sprintf("a path from this dequeue attempt reaches %s without evaluating the emptiness re-sync: after an item that could not be read back, the reported size stays above zero on an empty queue and a producer blocked on a full queue is never released", posOf(p, esc)))
+		}
+	}
+}
+
 func sameGuardSet(a, b *ssa.BasicBlock) bool {
 	ga, gb := guardsOf(a), guardsOf(b)
 	if len(ga) != len(gb) {
